@@ -2197,10 +2197,25 @@ class Engine:
             return False
         if self.is_listener_iface(callee.qual):
             return False
-        if self.is_unknown_helper(callee) and depth < 12 and self.policy.transparent_helpers:
+        if self.transparent(callee, e.func) and depth < 12:
             # a function the rules were not written against (extracted helper): analysed in place
             return True
         return self.policy.inline(callee, depth, e)
+
+    def transparent(self, callee: FuncInfo, caller: t.Optional[FuncInfo]) -> bool:
+        """an unknown function that serves its caller: a module-level function, or a method of the caller's own class
+        (hierarchy).  A new method that is invoked on *another* object is a new interface of that object: it stays a
+        call and is analysed on its own like the known ones."""
+        if not self.policy.transparent_helpers or not self.is_unknown_helper(callee):
+            return False
+        if callee.cls is None:
+            return True
+        ccls = caller.cls if caller is not None else None
+        if ccls is None and caller is not None and caller.kind == "nested" and getattr(caller, "parent", None) is not None:
+            ccls = caller.parent.cls
+        if ccls is None:
+            return False
+        return self.prog.is_subclass(ccls.qual, callee.cls.qual) or self.prog.is_subclass(callee.cls.qual, ccls.qual)
 
     def is_unknown_helper(self, callee: FuncInfo) -> bool:
         return _strip_at(callee.qual) not in baseline_functions() and callee.kind != "property" \
@@ -2208,7 +2223,7 @@ class Engine:
 
     def _inline(self, callee: FuncInfo, recv, rc, args, kwargs, e: Event, node, s: _State, fi, depth, ch):
         e.inlined = True
-        if self.is_unknown_helper(callee) and self.policy.transparent_helpers:
+        if self.transparent(callee, e.func):
             # the call of an extracted helper is not an action of its own: rules see the helper's body instead
             e.helper = callee
             e.targets = []
@@ -2230,7 +2245,7 @@ class Engine:
                 sub.events = []
                 # an unknown helper is part of its caller: its body runs at the caller's depth (a rule that inlines
                 # "one level" still sees one level below the helper)
-                d2 = depth if self.is_unknown_helper(callee) and self.policy.transparent_helpers and depth < 12 else depth + 1
+                d2 = depth if self.transparent(callee, e.func) and depth < 12 else depth + 1
                 outs = self._run_body(callee, callee.node.body, sub, d2)
             finally:
                 self._active.pop()
